@@ -75,10 +75,16 @@ class PrinterTransactionContext(AbstractPrinter):  # pylint: disable=too-few-pub
         filename = dest / filename
         function = list(self.teal.functions.values())[0]
 
+        # contexts are stored for the function's own copies of the blocks: look them up by block id
+        contexts = {bi.idx: function.transaction_context(bi) for bi in function.blocks}
+
         def get_info(bb: "BasicBlock") -> List[str]:
             # NOTE: use the first function for now as `init_tealer_from_single_contract` uses entire contract as single function.
-            group_indices_str = self._repr_num_list(function.transaction_context(bb).group_indices)
-            group_sizes_str = self._repr_num_list(function.transaction_context(bb).group_sizes)
+            if bb.idx not in contexts:
+                # block is not part of the function (e.g. a subroutine that is only called from unreachable code)
+                return []
+            group_indices_str = self._repr_num_list(contexts[bb.idx].group_indices)
+            group_sizes_str = self._repr_num_list(contexts[bb.idx].group_sizes)
             return [f"GroupIndex: {group_indices_str}", f"GroupSize: {group_sizes_str}"]
 
         config = CFGDotConfig()
